@@ -23,20 +23,20 @@ theorem runRetry_inv (inv : Invoke) (I Q : Run → Prop) (hIQ : ∀ r, I r → Q
     | true => simpa using hq
     | false => simpa using runRetry_inv inv I Q hIQ hstep n _ sched.tail (hi hd)
 
-theorem invokeFixed_fst (s : Setter) (p : Status) : (s.invokeFixed p).1 = s := by
-  unfold Setter.invokeFixed; simp only []; split <;> rfl
-
-theorem invoke_snd (s : Setter) (p : Status) : (s.invoke p).2 = (s.invokeFixed p).2 := by
-  unfold Setter.invoke Setter.invokeFixed; simp only []; split <;> rfl
-
-theorem invoke_fst (s : Setter) (p : Status) : (s.invoke p).1 = { s with cap := merged s p } := by
+theorem invoke_fst (s : Setter) (p : Status) : (s.invoke p).1 = s := by
   unfold Setter.invoke; simp only []; split <;> rfl
 
+theorem invokeMutating_snd (s : Setter) (p : Status) : (s.invokeMutating p).2 = (s.invoke p).2 := by
+  unfold Setter.invokeMutating Setter.invoke; simp only []; split <;> rfl
+
+theorem invokeMutating_fst (s : Setter) (p : Status) : (s.invokeMutating p).1 = { s with cap := merged s p } := by
+  unfold Setter.invokeMutating; simp only []; split <;> rfl
+
 /-- result of one invocation in terms of `merged` / `equalCheck` -/
-theorem invokeFixed_snd (s : Setter) (p : Status) :
-    (s.invokeFixed p).2 =
+theorem invoke_snd (s : Setter) (p : Status) :
+    (s.invoke p).2 =
       if equalCheck s p (merged s p) then (p, false) else (merged s p, true) := by
-  unfold Setter.invokeFixed; simp only []; split <;> rfl
+  unfold Setter.invoke; simp only []; split <;> rfl
 
 /-! ### the four shapes of one attempt -/
 
@@ -112,7 +112,7 @@ theorem attempt_cases (inv : Invoke) (r : Run) (op : Op) (P : Run × Bool → Pr
     | false => rw [attempt_noop inv r _ (Or.inr ⟨poke, rfl⟩) hw]; exact h3 hw
     | true => rw [attempt_updFail_set inv r poke hw]; exact h5 poke hw
 
-/-! ### repaired variant: every submission is the first-invocation result of the ORIGINAL setter -/
+/-! ### stateless invocation (the code in the tree): every submission is the first-invocation result of the ORIGINAL setter -/
 
 theorem retryStateless_submissions (inv : Invoke) (s : Setter) (hst : ∀ p, (inv s p).1 = s)
     (n : Nat) (store : Status) (sched : List Op) :
@@ -151,22 +151,22 @@ theorem retryStateless_submissions (inv : Invoke) (s : Setter) (hst : ∀ p, (in
       exact ⟨⟨hfst, this⟩, fun _ => ⟨hfst, this⟩⟩
   exact key.2
 
-theorem retryFixed_submissions (s : Setter) (n : Nat) (store : Status) (sched : List Op) :
+theorem retry_submissions (s : Setter) (n : Nat) (store : Status) (sched : List Op) :
     ∀ prev sub ok, Call.update prev sub ok ∈
-        (runRetry Setter.invokeFixed n (Run.init s store) sched).calls →
-      (s.invokeFixed prev).2 = (sub, true) :=
-  retryStateless_submissions Setter.invokeFixed s (invokeFixed_fst s) n store sched
+        (runRetry Setter.invoke n (Run.init s store) sched).calls →
+      (s.invoke prev).2 = (sub, true) :=
+  retryStateless_submissions Setter.invoke s (invoke_fst s) n store sched
 
-theorem invoke_fst_whole (s : Setter) (h : s.kind.mode = .whole) (p : Status) : (s.invoke p).1 = s := by
-  rw [invoke_fst]; unfold merged; rw [h]
+theorem invokeMutating_fst_whole (s : Setter) (h : s.kind.mode = .whole) (p : Status) : (s.invokeMutating p).1 = s := by
+  rw [invokeMutating_fst]; unfold merged; rw [h]
 
 theorem retryWhole_submissions (s : Setter) (h : s.kind.mode = .whole) (n : Nat) (store : Status)
     (sched : List Op) :
-    ∀ prev sub ok, Call.update prev sub ok ∈ (runRetry Setter.invoke n (Run.init s store) sched).calls →
-      (s.invoke prev).2 = (sub, true) :=
-  retryStateless_submissions Setter.invoke s (invoke_fst_whole s h) n store sched
+    ∀ prev sub ok, Call.update prev sub ok ∈ (runRetry Setter.invokeMutating n (Run.init s store) sched).calls →
+      (s.invokeMutating prev).2 = (sub, true) :=
+  retryStateless_submissions Setter.invokeMutating s (invokeMutating_fst_whole s h) n store sched
 
-/-! ### faithful variant: what survives re-invocation, and what holds for a single invocation -/
+/-! ### pre-fix mutating variant: what survives re-invocation, and what holds for a single invocation -/
 
 structure RetryInv (s : Setter) (r : Run) : Prop where
   kind : r.setter.kind = s.kind
@@ -176,32 +176,37 @@ structure RetryInv (s : Setter) (r : Run) : Prop where
   subs : ∀ prev sub ok, Call.update prev sub ok ∈ r.calls →
     own s.ctlr sub = s.cap ∧ (foreign s.ctlr prev).Sublist (foreign s.ctlr sub)
   single : r.invocations ≤ 1 → ∀ prev sub ok, Call.update prev sub ok ∈ r.calls →
-    (s.invokeFixed prev).2 = (sub, true)
+    (s.invoke prev).2 = (sub, true)
 
 theorem invoke_out_of_set (t : Setter) (p : Status) (h : (t.invoke p).2.2 = true) :
     (t.invoke p).2.1 = merged t p := by
-  rw [invoke_snd, invokeFixed_snd] at *
+  rw [invoke_snd] at *
   split at h <;> simp_all
 
+theorem invokeMutating_out_of_set (t : Setter) (p : Status) (h : (t.invokeMutating p).2.2 = true) :
+    (t.invokeMutating p).2.1 = merged t p := by
+  rw [invokeMutating_snd] at *
+  exact invoke_out_of_set t p h
+
 theorem retry_invariant (s : Setter) (hm : Merging s) (hf : Fresh s) (n : Nat) (store : Status)
-    (sched : List Op) : RetryInv s (runRetry Setter.invoke n (Run.init s store) sched) := by
+    (sched : List Op) : RetryInv s (runRetry Setter.invokeMutating n (Run.init s store) sched) := by
   refine runRetry_inv _ (RetryInv s) (RetryInv s) (fun _ h => h) ?_ n _ sched ?_
   · intro r op hI
     have hmt : Merging r.setter := by unfold Merging; rw [hI.kind]; exact hm
     -- facts about the closure state after an invocation
-    have hk' : (Setter.invoke r.setter r.store).1.kind = s.kind := by rw [invoke_fst]; exact hI.kind
-    have hc' : (Setter.invoke r.setter r.store).1.ctlr = s.ctlr := by rw [invoke_fst]; exact hI.ctlr
-    have ho' : own s.ctlr (Setter.invoke r.setter r.store).1.cap = s.cap := by
-      rw [invoke_fst]; simp only []
+    have hk' : (Setter.invokeMutating r.setter r.store).1.kind = s.kind := by rw [invokeMutating_fst]; exact hI.kind
+    have hc' : (Setter.invokeMutating r.setter r.store).1.ctlr = s.ctlr := by rw [invokeMutating_fst]; exact hI.ctlr
+    have ho' : own s.ctlr (Setter.invokeMutating r.setter r.store).1.cap = s.cap := by
+      rw [invokeMutating_fst]; simp only []
       rw [← hI.ctlr, merged_own_general hmt, hI.ctlr]; exact hI.ownCap
-    have hsub : (Setter.invoke r.setter r.store).2.2 = true →
-        own s.ctlr (Setter.invoke r.setter r.store).2.1 = s.cap ∧
-        (foreign s.ctlr r.store).Sublist (foreign s.ctlr (Setter.invoke r.setter r.store).2.1) := by
+    have hsub : (Setter.invokeMutating r.setter r.store).2.2 = true →
+        own s.ctlr (Setter.invokeMutating r.setter r.store).2.1 = s.cap ∧
+        (foreign s.ctlr r.store).Sublist (foreign s.ctlr (Setter.invokeMutating r.setter r.store).2.1) := by
       intro hw
-      rw [invoke_out_of_set _ _ hw, ← hI.ctlr]
+      rw [invokeMutating_out_of_set _ _ hw, ← hI.ctlr]
       exact ⟨by rw [merged_own_general hmt, hI.ctlr]; exact hI.ownCap, merged_foreign_sublist hmt _⟩
-    have hsingle : r.invocations + 1 ≤ 1 → (Setter.invoke r.setter r.store).2.2 = true →
-        (s.invokeFixed r.store).2 = ((Setter.invoke r.setter r.store).2.1, true) := by
+    have hsingle : r.invocations + 1 ≤ 1 → (Setter.invokeMutating r.setter r.store).2.2 = true →
+        (s.invoke r.store).2 = ((Setter.invokeMutating r.setter r.store).2.1, true) := by
       intro hle hw
       have h0 : r.invocations = 0 := by omega
       have hts : r.setter = s := by
@@ -210,9 +215,9 @@ theorem retry_invariant (s : Setter) (hm : Merging s) (hf : Fresh s) (n : Nat) (
         have h3 := hI.ctlr
         cases hr : r.setter; cases s
         simp_all
-      rw [← hts, ← invoke_snd]
+      rw [← hts, ← invokeMutating_snd]
       exact Prod.ext rfl hw
-    apply attempt_cases Setter.invoke r op (fun x => RetryInv s x.1 ∧ (x.2 = false → RetryInv s x.1))
+    apply attempt_cases Setter.invokeMutating r op (fun x => RetryInv s x.1 ∧ (x.2 = false → RetryInv s x.1))
     · have : RetryInv s { r with calls := r.calls ++ [Call.get false] } :=
         ⟨hI.kind, hI.ctlr, hI.ownCap, hI.fresh,
           fun p sub ok hm => hI.subs p sub ok (by simpa using hm),
@@ -224,7 +229,7 @@ theorem retry_invariant (s : Setter) (hm : Merging s) (hf : Fresh s) (n : Nat) (
           fun hle p sub ok hm => hI.single hle p sub ok (by simpa using hm)⟩
       exact ⟨this, fun _ => this⟩
     · intro _
-      have : RetryInv s ({ r with setter := (Setter.invoke r.setter r.store).1
+      have : RetryInv s ({ r with setter := (Setter.invokeMutating r.setter r.store).1
                                   calls := r.calls ++ [Call.get true]
                                   invocations := r.invocations + 1 } : Run) :=
         ⟨hk', hc', ho', fun h => by simp at h,
@@ -233,9 +238,9 @@ theorem retry_invariant (s : Setter) (hm : Merging s) (hf : Fresh s) (n : Nat) (
       exact ⟨this, fun _ => this⟩
     · intro hw
       have : RetryInv s ({ r with
-          setter := (Setter.invoke r.setter r.store).1
-          calls := r.calls ++ [Call.get true] ++ [Call.update r.store (Setter.invoke r.setter r.store).2.1 true]
-          store := (Setter.invoke r.setter r.store).2.1
+          setter := (Setter.invokeMutating r.setter r.store).1
+          calls := r.calls ++ [Call.get true] ++ [Call.update r.store (Setter.invokeMutating r.setter r.store).2.1 true]
+          store := (Setter.invokeMutating r.setter r.store).2.1
           writes := r.writes + 1
           invocations := r.invocations + 1 } : Run) := by
         refine ⟨hk', hc', ho', fun h => by simp at h, ?_, ?_⟩
@@ -252,8 +257,8 @@ theorem retry_invariant (s : Setter) (hm : Merging s) (hf : Fresh s) (n : Nat) (
       exact ⟨this, fun _ => this⟩
     · intro poke hw
       have : RetryInv s ({ r with
-          setter := (Setter.invoke r.setter r.store).1
-          calls := r.calls ++ [Call.get true] ++ [Call.update r.store (Setter.invoke r.setter r.store).2.1 false]
+          setter := (Setter.invokeMutating r.setter r.store).1
+          calls := r.calls ++ [Call.get true] ++ [Call.update r.store (Setter.invokeMutating r.setter r.store).2.1 false]
           store := poke.getD r.store
           invocations := r.invocations + 1 } : Run) := by
         refine ⟨hk', hc', ho', fun h => by simp at h, ?_, ?_⟩
@@ -315,20 +320,25 @@ theorem retry_writes (inv : Invoke) (n : Nat) (r : Run) (sched : List Op) (h0 : 
 
 theorem invoke_wasSet_false_iff {s : Setter} (hm : Merging s) (hf : Fresh s) (prev : Status) :
     (s.invoke prev).2.2 = false ↔ SameOwn s.kind s.ctlr prev s.cap := by
-  rw [invoke_snd, invokeFixed_snd, ← equalCheck_iff_sameOwn hm hf]
+  rw [invoke_snd, ← equalCheck_iff_sameOwn hm hf]
   split <;> simp_all
 
-theorem retry_noop (s : Setter) (hm : Merging s) (hf : Fresh s) (n : Nat) (store : Status)
-    (sched : List Op) (h : SameOwn s.kind s.ctlr store s.cap) :
-    let r := runRetry Setter.invoke n (Run.init s store) sched
+theorem invokeMutating_wasSet_false_iff {s : Setter} (hm : Merging s) (hf : Fresh s) (prev : Status) :
+    (s.invokeMutating prev).2.2 = false ↔ SameOwn s.kind s.ctlr prev s.cap := by
+  rw [invokeMutating_snd]; exact invoke_wasSet_false_iff hm hf prev
+
+/-- for any invocation function: if the ORIGINAL setter says "nothing to do" on the stored status,
+the loop never submits anything and leaves the store alone, whatever the schedule -/
+theorem retry_noop_gen (inv : Invoke) (s : Setter) (n : Nat) (store : Status) (sched : List Op)
+    (h : (inv s store).2.2 = false) :
+    let r := runRetry inv n (Run.init s store) sched
     r.store = store ∧ r.writes = 0 ∧ ∀ p sub ok, Call.update p sub ok ∉ r.calls := by
   let Q : Run → Prop := fun r => r.store = store ∧ r.writes = 0 ∧ ∀ p sub ok, Call.update p sub ok ∉ r.calls
   refine runRetry_inv _ (fun r => r.setter = s ∧ Q r) Q (fun _ h => h.2) ?_ n _ sched
     ⟨rfl, rfl, rfl, by simp [Run.init]⟩
   intro r op ⟨hs, hst, hw, hc⟩
-  have hno : (Setter.invoke r.setter r.store).2.2 = false := by
-    rw [hs, hst]; exact (invoke_wasSet_false_iff hm hf store).2 h
-  apply attempt_cases Setter.invoke r op (fun x => Q x.1 ∧ (x.2 = false → x.1.setter = s ∧ Q x.1))
+  have hno : (inv r.setter r.store).2.2 = false := by rw [hs, hst]; exact h
+  apply attempt_cases inv r op (fun x => Q x.1 ∧ (x.2 = false → x.1.setter = s ∧ Q x.1))
   · have : Q { r with calls := r.calls ++ [Call.get false] } :=
       ⟨hst, hw, fun p sub ok hm => hc p sub ok (by simpa using hm)⟩
     exact ⟨this, fun _ => ⟨hs, this⟩⟩
@@ -339,5 +349,11 @@ theorem retry_noop (s : Setter) (hm : Merging s) (hf : Fresh s) (n : Nat) (store
     refine ⟨⟨hst, hw, fun p sub ok hm => hc p sub ok (by simpa using hm)⟩, fun hf => by simp at hf⟩
   · intro hw'; rw [hno] at hw'; exact absurd hw' (by simp)
   · intro _ hw'; rw [hno] at hw'; exact absurd hw' (by simp)
+
+theorem retry_noop (s : Setter) (hm : Merging s) (hf : Fresh s) (n : Nat) (store : Status)
+    (sched : List Op) (h : SameOwn s.kind s.ctlr store s.cap) :
+    let r := runRetry Setter.invoke n (Run.init s store) sched
+    r.store = store ∧ r.writes = 0 ∧ ∀ p sub ok, Call.update p sub ok ∉ r.calls :=
+  retry_noop_gen Setter.invoke s n store sched ((invoke_wasSet_false_iff hm hf store).2 h)
 
 end NGF.StatusWrite
